@@ -180,3 +180,102 @@ Theorem C15_source_constants :
   ascii_bytes Gen.Consts.keystorev3_prfHmacSHA256 = Keystore.Model.prfHmacSHA256.
 Proof. vm_compute. repeat split; reflexivity. Qed.
 Print Assumptions C15_source_constants.
+
+(* 6. (round 4) The bridge for leniently formed documents.  encoding/json reads documents the strict
+      specification does not define (case variants of member names, duplicate members, null or absent
+      members, 0x-prefixed hex), so for those there is no "same document" to hand to Keystore/Spec.v.
+      But the wallet the code returns can be marshalled again ([JSON_tree], the model of JSON()), and that
+      document IS a strict V3 document: for EVERY document t (lenient or not), every password and every
+      behaviour of the primitives whose UUID parser returns 16 bytes ([uuid_parse_16]: google/uuid's
+      UUID is a [16]byte; the only law used), the key the code returns is the key the independent strict
+      specification derives from the re-marshalled wallet -- without the cipher test unconditionally, with
+      it (the full standard) when the file declares aes-128-ctr.  No well-formedness guard. *)
+From FFS Require Keystore.ProofsNew Keystore.TotalProofs6 Keystore.TotalProofs7.
+
+Theorem C15_lenient_read_then_strict :
+  forall (b : bool) (P : prims), TotalProofs6.uuid_parse_16 P ->
+  forall (t : json) (pw : bytes) (w : wallet),
+    read_wallet_tree P t pw = Ok w ->
+    (b = true -> cc_cipher (w_crypto w) = cipherAES128ctr) ->
+    v3_decrypt_gen b P (JSON_tree w) pw = Ok (PrivateKey w).
+Proof. exact TotalProofs6.lenient_read_then_strict. Qed.
+Print Assumptions C15_lenient_read_then_strict.
+
+(* the same at the level of ReadWalletFile (bytes in, lexer oracle), also after any Metadata()
+   assignments by the caller (the specification looks at id, version and crypto only, which
+   marshalWalletJSON sets last): no foreign key, for any document -- this removes guard (ii) of
+   C15_no_foreign_key_partial; what stays partial is the cipher member only *)
+Theorem C15_no_foreign_key_any_document :
+  forall (b : bool) (P : prims), TotalProofs6.uuid_parse_16 P ->
+  forall (data pw : bytes) (w : wallet) (extras : list (bytes * json)),
+    ReadWalletFile P data pw = Ok w ->
+    (b = true -> cc_cipher (w_crypto w) = cipherAES128ctr) ->
+    v3_decrypt_gen b P (JSON_tree (ProofsNew.assign_all w extras)) pw = Ok (PrivateKey w).
+Proof. exact TotalProofs6.no_foreign_key_any_document. Qed.
+Print Assumptions C15_no_foreign_key_any_document.
+
+(* the shape of every returned wallet that makes this work: version 3, a 16-byte id, the kdf name matching
+   the kind of kdfparams (the two decoding passes agree), every integer parameter an int64 *)
+Theorem C15_read_wallet_shape :
+  forall (P : prims), TotalProofs6.uuid_parse_16 P ->
+  forall (t : json) (pw : bytes) (w : wallet),
+    read_wallet_tree P t pw = Ok w ->
+    cf_version (w_core w) = 3%Z /\
+    (exists u, cf_id (w_core w) = Some u /\ length u = 16%nat) /\
+    TotalProofs6.kdf_tag_ok (w_crypto w) (w_kdfparams w) /\ TotalProofs6.kdf_ints (w_kdfparams w).
+Proof. exact TotalProofs6.read_wallet_shape. Qed.
+Print Assumptions C15_read_wallet_shape.
+
+(* 7. (round 4) Exactness for EVERY document: theorem 5 without its guards [v3_wellformed],
+      [unambiguous], [nums_ok].  For primitives with [crypto_laws] and [uuid_parse_16], any document t,
+      password and key k: the read path returns a wallet with key k (from a file declaring aes-128-ctr,
+      when b = true) exactly when t decodes -- encoding/json's typed decoding into the Go structs
+      ([decode_content]) and into the metadata map ([unmarshal_metadata]), as modelled -- and the
+      independent strict specification (the full standard for b = true) derives k from the canonical V3
+      document [content_doc c] carrying the decoded content; and it reports an error exactly when no key
+      is derived that way.  The read path = lenient decoding, then exactly the V3 standard: neither a
+      foreign key nor a spurious rejection on any document. *)
+Theorem C15_read_iff_spec_any :
+  forall (P : prims), crypto_laws P -> TotalProofs6.uuid_parse_16 P ->
+  forall (b : bool) (t : json) (pw k : bytes),
+    (exists w, read_wallet_tree P t pw = Ok w /\ PrivateKey w = k /\
+               (b = true -> cc_cipher (w_crypto w) = cipherAES128ctr)) <->
+    (exists c md, decode_content P t = Some c /\ unmarshal_metadata P t = Ok md /\
+                  v3_decrypt_gen b P (TotalProofs7.content_doc c) pw = Ok k).
+Proof. exact TotalProofs7.read_iff_spec_any. Qed.
+Print Assumptions C15_read_iff_spec_any.
+
+Theorem C15_read_err_iff_spec_any :
+  forall (P : prims), crypto_laws P -> TotalProofs6.uuid_parse_16 P ->
+  forall (t : json) (pw : bytes),
+    (exists e, read_wallet_tree P t pw = Err e) <->
+    (forall c md k, decode_content P t = Some c -> unmarshal_metadata P t = Ok md ->
+                    v3_decrypt_gen false P (TotalProofs7.content_doc c) pw <> Ok k).
+Proof. exact TotalProofs7.read_err_iff_spec_any. Qed.
+Print Assumptions C15_read_err_iff_spec_any.
+
+(* non-vacuity: a file created by the model, rewritten the way only encoding/json reads it ("Crypto",
+   "cipherText" with 0x and upper-case hex, a first "version": 7 overridden by the later one, "VERSION":
+   null): the strict specification refuses the document itself, the code reads it, the full standard
+   decrypts the re-marshalled wallet and the canonical document to the same key, another password is
+   rejected on both sides; the laws hold of the instance *)
+Example C15_read_iff_spec_any_nonvacuous :
+  crypto_laws TotalProofs7.toy16 /\ TotalProofs6.uuid_parse_16 TotalProofs7.toy16 /\
+  match TotalProofs7.lenient_doc with
+  | Some t =>
+      v3_wellformed t = false /\ v3_decrypt_gen false TotalProofs7.toy16 t [x70; x77] = Err SInvalid /\
+      match read_wallet_tree TotalProofs7.toy16 t [x70; x77] with
+      | Ok w => PrivateKey w = [x01; x02; x03] /\
+                v3_decrypt TotalProofs7.toy16 (JSON_tree w) [x70; x77] = Ok [x01; x02; x03]
+      | _ => False
+      end /\
+      match decode_content TotalProofs7.toy16 t, unmarshal_metadata TotalProofs7.toy16 t with
+      | Some c, Ok _ =>
+          v3_decrypt TotalProofs7.toy16 (TotalProofs7.content_doc c) [x70; x77] = Ok [x01; x02; x03] /\
+          v3_decrypt_gen false TotalProofs7.toy16 (TotalProofs7.content_doc c) [x70] = Err SMac
+      | _, _ => False
+      end /\
+      (match read_wallet_tree TotalProofs7.toy16 t [x70] with Err _ => true | _ => false end) = true
+  | None => False
+  end.
+Proof. exact TotalProofs7.read_iff_spec_any_nonvacuous. Qed.
